@@ -130,25 +130,36 @@ func TestVerifHealth(t *testing.T) {
 					return
 				}
 				var res result
-				loadedTries := 0
+				loadedTries, tries := 0, 0
 				for try := 0; try < 3; try++ {
 					var clean bool
 					res, clean = healthHistory(seeds[i], peers)
+					// a millisecond-level judgement (how long Handle kept retrying) is re-made like a noisy history
+					for _, f := range res.fails {
+						if strings.HasPrefix(f[0], "retry-") {
+							clean = false
+						}
+					}
 					if clean {
 						break
 					}
+					tries++
 					res.st["retimed"]++
-					// is it the machine? a probe the code under test cannot influence: how late does a 20 ms sleep wake up
-					t0 := time.Now()
-					time.Sleep(20 * time.Millisecond)
-					if late := time.Since(t0) - 20*time.Millisecond; late > 12*time.Millisecond {
+					// is it the machine? a probe the code under test cannot influence: how late do two 20 ms sleeps wake up
+					late := time.Duration(0)
+					for k := 0; k < 2; k++ {
+						t0 := time.Now()
+						time.Sleep(20 * time.Millisecond)
+						late = max(late, time.Since(t0)-20*time.Millisecond)
+					}
+					if late > 4*time.Millisecond {
 						loadedTries++
 					}
 				}
-				if loadedTries == 3 {
+				if tries == 3 && loadedTries == 3 {
 					// three noisy runs, each on a measurably overloaded machine: the millisecond-level judgements of this history are not
 					// made (the case is passed on as a note; the model is not consulted)
-					res = result{caseLine: "note health history skipped: machine overloaded (sleep probe late by more than 12 ms three times)", obs: "skipped", st: map[string]int{"skipped-overloaded": 1}}
+					res = result{caseLine: "note health history skipped: machine overloaded (sleep probe late by more than 4 ms on each of three runs)", obs: "skipped", st: map[string]int{"skipped-overloaded": 1}}
 				}
 				results[i] = res
 			}
